@@ -116,6 +116,23 @@ impl World {
                 }
                 Ok(())
             }
+            Cmd::Watch { p, attach } => {
+                if let Some(node) = self.nodes.get_mut(*p).and_then(|n| n.as_mut()) {
+                    if *attach {
+                        if node.watch_rx.is_none() {
+                            let mut rx = node.chit.live_nodes_watcher();
+                            // a new consumer has seen nothing yet: what it reads first is checked at
+                            // the next evaluation
+                            rx.mark_unchanged();
+                            node.watch_rx = Some(rx);
+                            self.stats.inc("watch_attached");
+                        }
+                    } else if node.watch_rx.take().is_some() {
+                        self.stats.inc("watch_detached");
+                    }
+                }
+                Ok(())
+            }
             Cmd::Catchup { p, member, q } => self.catchup(*p, *member, *q),
             Cmd::Inject { to, hex } => self.inject(*to, unhex(hex)),
             Cmd::Handshake { a, b } => self.handshake(*a, *b).map(|_| ()),
@@ -489,8 +506,18 @@ impl World {
                 .collect();
             let cur_live: BTreeMap<Id, u64> = live.iter().filter_map(|id| after.get(id).map(|c| (id.clone(), c.mv))).collect();
             let must_publish = node.prev_eval_live.as_ref().map(|prev| prev != &cur_live).unwrap_or(false);
-            let changed = node.watch_rx.has_changed().unwrap_or(false);
-            let chan: BTreeMap<Id, u64> = node.watch_rx.borrow_and_update().iter().map(|(rid, ns)| (Id::from_real(rid), ns.max_version())).collect();
+            // with no consumer attached the value is read through a receiver opened now and dropped
+            // at once; whether something was published can then not be observed
+            let mut transient = None;
+            let persistent = node.watch_rx.is_some();
+            let rx = match node.watch_rx.as_mut() {
+                Some(rx) => rx,
+                None => transient.insert(node.chit.live_nodes_watcher()),
+            };
+            let changed = rx.has_changed().unwrap_or(false);
+            let chan: BTreeMap<Id, u64> = rx.borrow_and_update().iter().map(|(rid, ns)| (Id::from_real(rid), ns.max_version())).collect();
+            drop(transient);
+            let must_publish = must_publish && persistent;
             node.prev_eval_live = Some(cur_live);
             if changed {
                 self.stats.inc("probe_watch_published");
